@@ -128,9 +128,14 @@ def run_case(case, exe, stubdir, workroot, R, keep=False):
             for f in lib.functions:
                 if f.get("foreign"):
                     continue
-                sa = lib.size_align(f["ret"])
-                if sa is not None and f["ret"][0] == "path":
-                    want[lib.decl(f["ret"], "")] = sa[0]
+                # the object type is the function's result or what its out-parameter points to
+                cands = [f["ret"]] + [t[1] for _, t in f["args"] if t[0] == "ptr"]
+                for ty in cands:
+                    if ty[0] != "path":
+                        continue
+                    sa = lib.size_align(ty)
+                    if sa is not None and sa[0] > 0:
+                        want[lib.decl(ty, "")] = sa[0]
             if want:
                 tu = os.path.join(wd, "sizes.c")
                 with open(tu, "w") as f:
